@@ -61,7 +61,7 @@ pub fn body_of(kind: &str, n: usize, si: &[u8]) -> (u8, Vec<u8>) {
 fn list_json(bytes: &[u8]) -> Value {
     match split_blocks(bytes) {
         Some((blocks, _)) => Value::from(blocks.iter().map(|(t, b)| json!([kind_name(*t, b), b.len() as i64])).collect::<Vec<_>>()),
-        None => json!("unparseable"),
+        None => json!([]), // (the caller records "new_parseable": false; a string here would make the trace monitor throw)
     }
 }
 
@@ -146,7 +146,12 @@ pub fn run(job: &Value, t: &mut Trace) -> usize {
         for e in h["edits"].as_array().unwrap() {
             let before = file.clone();
             let mut rebuilt: Vec<u8> = vec![];
-            let mut original = Cursor::new(file.clone());
+            // some histories keep the stream behind foreign leading bytes (an ID3v2 tag, say) with the handle positioned at "fLaC":
+            // the current position is the start of the stream for update_file, as it is for the encoder and the decoders
+            let lead: usize = if h["lead"].as_u64().is_some() { h["lead"].as_u64().unwrap() as usize } else { 0 };
+            let junk: Vec<u8> = (0..lead).map(|i| 0xD0u8 ^ (i as u8)).collect();
+            let mut original = Cursor::new([junk.clone(), file.clone()].concat());
+            original.set_position(lead as u64);
             let mut edited_clone: Option<BlockList> = None;
             let r = catch(|| {
                 update_file::<_, _, flac_codec::Error>(
@@ -159,10 +164,12 @@ pub fn run(job: &Value, t: &mut Trace) -> usize {
                     },
                 )
             });
-            let orig_after = original.into_inner();
+            let whole_after = original.into_inner();
+            let lead_intact = whole_after.len() >= lead && whole_after[..lead] == junk[..];
+            let orig_after: Vec<u8> = whole_after[lead.min(whole_after.len())..].to_vec();
             let mut ev = json!({"ev": "update", "edit": e, "old": list_json(&before), "len_old": before.len() as i64,
                 "orig_after": list_json(&orig_after), "orig_untouched": orig_after == before,
-                "rebuilt_len": rebuilt.len() as i64});
+                "rebuilt_len": rebuilt.len() as i64, "lead": lead as i64, "lead_intact": lead_intact});
             let newfile: Option<&Vec<u8>> = match &r {
                 Ok(Ok(false)) => {
                     ev["ret"] = json!("inplace");
@@ -185,6 +192,7 @@ pub fn run(job: &Value, t: &mut Trace) -> usize {
                 }
             };
             if let Some(nf) = newfile {
+                ev["new_parseable"] = json!(split_blocks(nf).is_some());
                 ev["new"] = list_json(nf);
                 ev["len_new"] = json!(nf.len() as i64);
                 ev["audio_same"] = json!(audio_of(nf) == Some(&audio[..]));
